@@ -16,6 +16,7 @@
 
 package types
 
+import "fmt"
 import "github.com/mattn/go-shellwords"
 
 // ShellCommand is a string or list of string args.
@@ -77,8 +78,12 @@ func (s *ShellCommand) DecodeMapstructure(value interface{}) error {
 		*s = cmd
 	case []interface{}:
 		cmd := make([]string, len(v))
-		for i, s := range v {
-			cmd[i] = s.(string)
+		for i, e := range v {
+			str, ok := e.(string)
+			if !ok {
+				return fmt.Errorf("unexpected value type %T in a command", e)
+			}
+			cmd[i] = str
 		}
 		*s = cmd
 	}
